@@ -308,6 +308,11 @@ type replay struct {
 
 type envDiscard struct{ what string }
 
+// failSeen: every failure any execution reported (family + key -> first description).  Those that the explorer could
+// not reproduce 5/5 are not violations; they are listed in the coverage as unconfirmed, so that a rare
+// nondeterminism of the harness or the environment leaves a trace.
+var failSeen = map[string]string{}
+
 // fdGuard keeps the process below its descriptor limit.  Every context creates a log file under PGO_TRACE_DIR that
 // only a garbage collection closes (the runtime's recorder is replaced, nothing else refers to the file), and TCP
 // mailboxes are shut down in the background 500 ms after their execution: a long run under load can outpace both.
@@ -372,10 +377,34 @@ func body(f family, mu *sync.Mutex, tot *runStats, discards map[string]int) func
 					fh.Close()
 				}
 			}
+			mu.Lock()
+			if _, ok := failSeen[f.Name+" "+fl.key]; !ok && len(failSeen) < 40 {
+				failSeen[f.Name+" "+fl.key] = fl.what
+			}
+			mu.Unlock()
 			c.Fail(fl.key, fl.what, cs.String())
 		}
 		c.Outcome(out)
 	}
+}
+
+func unconfirmed(res *hres.Result, seen map[string]string) map[string]string {
+	out := map[string]string{}
+	for k, what := range seen {
+		confirmed := false
+		for _, v := range res.Violations {
+			if strings.HasSuffix(k, " "+v.Key) {
+				confirmed = true
+			}
+		}
+		if !confirmed {
+			if len(what) > 400 {
+				what = what[:400]
+			}
+			out[k] = what
+		}
+	}
+	return out
 }
 
 func TestCheck(t *testing.T) {
@@ -525,6 +554,7 @@ func child(env hres.Env) *hres.Result {
 		"reads_of_another_archetypes_value": tot.crossReads,
 		"old_value_hints_judged":            tot.hints,
 		"discarded_env":                     discards,
+		"unconfirmed_failures":              unconfirmed(res, failSeen),
 		"env_aborts_accepted":               tot.envAborts,
 	}
 	_ = strings.Join
